@@ -10,7 +10,7 @@ Sub-checks
              is_bday / is_holiday / adjust f,p,m / add / bdays / inverse / 2-step-vs-table / dt_bump('nb') route
   drange_1b  generated configuration + up to 25 (t, u) pairs, t <= u: Calendar.drange(t, u, '1b')
   all_days   generated configuration, EVERY day between the first and last business day of the range x EVERY n in
-             [-40, 40] whose walk stays inside the range (small ranges in the quick tier, 2-3 years in thorough)
+             [-40, 40] whose walk stays inside the range (90-200 day ranges in the quick tier, 1-2.2 years in thorough)
   registry   state machine on calendar(key, ...): register / re-register / fetch / populate, compared with the
              last registration after every step
 """
@@ -179,7 +179,7 @@ def _month_ends(t0, t1):
 
 
 @st.composite
-def _cfg(draw, lo_days, hi_days, max_runs=4):
+def _cfg(draw, lo_days, hi_days, max_runs=4, min_runs=0):
     t0 = BASE + draw(st.integers(0, 3000))
     ndays = draw(st.integers(lo_days, hi_days))
     t1 = t0 + ndays
@@ -191,7 +191,7 @@ def _cfg(draw, lo_days, hi_days, max_runs=4):
     hols = [t0 + i for i in draw(st.lists(st.integers(0, ndays), min_size=k, max_size=k))]
     ends = _month_ends(t0, t1)
     runs = []
-    for _ in range(draw(st.integers(0, max_runs))):
+    for _ in range(draw(st.integers(min_runs, max_runs))):
         kind = draw(st.sampled_from(['any', 'month_end', 'weekend', 'month_end']))
         l = draw(st.one_of(st.integers(1, 7), st.integers(1, 7), st.integers(8, 40)))
         if kind == 'month_end' and ends:
@@ -407,10 +407,11 @@ def run_drange(spec):
 
 @st.composite
 def _all_case(draw, tier):
-    cfg = draw(_cfg(90, 200, max_runs=3) if tier == 'quick' else _cfg(730, 1095))
+    # at least one run: even the simplest configuration hypothesis can draw has a holiday
+    cfg = draw(_cfg(90, 200, max_runs=3, min_runs=1) if tier == 'quick' else _cfg(365, 800, min_runs=1))
     ref = _ref(cfg)
     if len(ref.B) < 4:
-        cfg = dict(cfg, hols=[], runs=[])
+        cfg = dict(cfg, hols=[], runs=[[s, 1] for s, l in cfg['runs']])
     return dict(cfg=cfg)
 
 
@@ -624,7 +625,7 @@ class RegistryModel(object):
 KNOWN = {}
 
 SUBS = [
-    Sub('day_laws', _day_case, run_day_laws, quick=1100, thorough=2500,
+    Sub('day_laws', _day_case, run_day_laws, quick=900, thorough=8000,
         rule='calendar configuration (range 500-1095 days starting on any weekday 1996-2004, weekend in {Sat-Sun, Fri-Sat, Sun, none}, adj in {f,p,m}, '
              'holidays = 0-63% of days at random + 0-4 runs of 1-40 consecutive holidays placed at random / across a month end / around a weekend) x 1-40 points '
              '(t in the interior so that 41 business days either side stay in range, biased to holidays and month ends; n in [-40,40] biased to |n|<=3; '
@@ -633,17 +634,17 @@ SUBS = [
              'non-trivial = some point has t non-business, or its walk crosses >= 2 consecutive holidays, or the modified-following month-end rule fires',
         floor=0.5, class_floors={'pt_month_end_rule': 0.1, 'pt_crosses_run>=2': 0.2, 'pt_holiday_weekday': 0.3, 'run_straddles_month_end': 0.1,
                                  'weekend=none': 0.1, 'weekend=6': 0.1, 'weekend=4,5': 0.1, 'adj=p': 0.15, 'adj=f': 0.15, 'adj=m': 0.15}),
-    Sub('drange_1b', _drange_case, run_drange, quick=1800, thorough=2500,
+    Sub('drange_1b', _drange_case, run_drange, quick=1500, thorough=8000,
         rule='configuration as in day_laws (range 120-500 days) x 1-25 pairs t <= u between the first and last business day, spans 0-12 / 0-90 / anything, '
              'endpoints biased to holidays. Oracle: the list of business days d with adjust(t) <= d <= adjust(u), found by visiting every day, compared as a list '
              '(order, nothing missing, nothing extra). non-trivial = an endpoint is not a business day or a weekday holiday lies inside',
         floor=0.5, class_floors={'endpoint_nonbday': 0.3, 'holiday_inside': 0.3, 'single_day': 0.05}),
-    Sub('all_days', _all_case, run_all_days, quick=40, thorough=40,
-        rule='one configuration, completely enumerated: every day between the first and last business day of the range (quick: range 90-200 days; thorough: 730-1095 days) '
+    Sub('all_days', _all_case, run_all_days, quick=32, thorough=100,
+        rule='one configuration, completely enumerated: every day between the first and last business day of the range (quick: range 90-200 days; thorough: 365-800 days) '
              'for is_bday/is_holiday/adjust f,p,m/drange(t, t+9), and every n in [-40,40] whose walk stays in range for add, bdays, inverse; 2-step law. '
              'non-trivial = the configuration has holidays and non-business days',
-        floor=0.3),
-    MachineSub('registry', RegistryModel, quick=(2400, 12), thorough=(1500, 20),
+        floor=0.25),
+    MachineSub('registry', RegistryModel, quick=(2000, 12), thorough=(1500, 20),
                rule='histories of register(key, holidays, weekend) / re-register with holidays only / register a Calendar object / re-register through the object / '
                     'fetch(key) / populate tables, 3 keys, holidays in a 70-day window; after every step every key known to the model is fetched and is_bday over the window, '
                     'is_holiday, adjust, add(+1) and - for small ranges - the table path add(+4) and bdays are compared with the LAST registration. '
